@@ -17,6 +17,7 @@ import (
 	"sort"
 	"strconv"
 	"strings"
+	"syscall"
 	"time"
 
 	"rcproxy/core/zz_verif/checks"
@@ -36,6 +37,18 @@ func main() {
 		os.Exit(runCheck(os.Args[2:]))
 	case "replay":
 		os.Exit(runReplay(os.Args[2:]))
+	case "one":
+		fs := flag.NewFlagSet("one", flag.ExitOnError)
+		fs.String("id", "", "")
+		name := fs.String("name", "", "")
+		mb := fs.Int("rlimit-mb", 4096, "")
+		fs.Parse(os.Args[2:])
+		lim := syscall.Rlimit{Cur: uint64(*mb) << 20, Max: uint64(*mb) << 20}
+		if err := syscall.Setrlimit(syscall.RLIMIT_AS, &lim); err != nil {
+			fmt.Println("setrlimit:", err)
+			os.Exit(4)
+		}
+		os.Exit(checks.RunOneC12(*name))
 	case "list":
 		var ids []string
 		for id := range checks.Registry {
